@@ -69,8 +69,17 @@ def run(chk: Check):
     arr = [(n, k) for n in range(-2, 40) for k in range(1, 41)] + [(n, k) for n in (62, 66, 67, 68, 80, 100, 200, 1000) for k in (1, 2, 3, n - 2, n - 1, n)]
     vectors = [[0] * 65 + [1, 0, 0, 1], [1] + [0] * 69 + [1]] + gen_vectors(chk.rng, nvec)
     fq = [v for v in vectors if len(v) <= 8][:200]
+    rng = chk.rng
+    batches = []
+    for _ in range(60 if T else 20):
+        d = rng.randint(2, 6)
+        batches.append([[rng.randint(0, 4) for _ in range(d)] for _ in range(rng.randint(1, 5))])
+    dim_arrays = []
+    for _ in range(200 if T else 60):
+        d = rng.randint(1, 7)
+        dim_arrays.append([d, [rng.randint(0, 7) for _ in range(rng.randint(1, 6))]])
     req = {"bosonic": bosonic, "comb": combs, "arr_comb": arr, "vectors": vectors,
-           "fermionic": list(range(1, fmax + 1)), "fq": fq}
+           "fermionic": list(range(1, fmax + 1)), "fq": fq, "batches": batches, "dim_arrays": dim_arrays}
     impl = run_impl("c06_impl.py", req, timeout=3000)
     corr_broken = []
 
@@ -155,6 +164,27 @@ Eval vm_compute in mismatches (fun x : list Z * Z * Z * Z * Z => let '(v,_,_,_,_
                len(vecs), distinct, samples=[vecs[0], vecs[len(vecs) // 2]],
                note="%d malformed cases where the model reports an int32 overflow (skipped for the vectorised functions)" % overflow)
 
+    # 3b. dimension arrays on arbitrary cutoff arrays, batched index calls
+    body = IMPORTS + """
+Definition dcases := %s.
+Definition bcases := %s.
+Eval vm_compute in mismatches (fun '(d, cs, bos, fer) =>
+  zl_eqb (map (fun c => cutoff_dim c (Z.of_nat d)) cs) bos &&
+  zl_eqb (map (fun c => f_cutoff_dim (Z.of_nat d) c) cs) fer) dcases.
+Eval vm_compute in mismatches (fun '(vs, idx, sidx) =>
+  zl_eqb (map fock_index vs) idx && zl_eqb (map fock_subspace_index vs) sidx) bcases.
+""" % (clist(impl["dim_arrays"], lambda r: "(%d%%nat, %s, %s, %s)" % (r["d"], clist(r["cutoffs"]), clist(r["bosonic"]), clist(r["fermionic"]))),
+       clist(impl["batches"], lambda r: "(%s, %s, %s)" % (zll(r["vs"]), clist(r["index"]), clist(r["subindex"]))))
+    g = parse_coq_list(coq_eval("c06_dims", body))
+    for i in g[0]:
+        corr_broken.append("dimension array model!=impl at %s" % {k: impl["dim_arrays"][i][k] for k in ("d", "cutoffs", "bosonic", "fermionic")})
+    for i in g[1]:
+        corr_broken.append("batched index model!=impl at %s" % impl["batches"][i])
+    chk.stream("dimension arrays on arbitrary cutoff arrays and batched vectorised index vs model",
+               len(impl["dim_arrays"]) + len(impl["batches"]),
+               len({(r["d"], tuple(r["cutoffs"])) for r in impl["dim_arrays"] if len(set(r["cutoffs"])) > 1 and sorted(r["cutoffs"]) != list(range(min(r["cutoffs"]), max(r["cutoffs"]) + 1))}),
+               samples=[impl["dim_arrays"][0]])
+
     # 4. fermionic
     items = []
     for r in impl["fermionic"]:
@@ -226,6 +256,27 @@ Eval vm_compute in mismatches ok fcases.
         if r["subindex"] != sub or (idx < 2 ** 31 and r["subindex_arr"] != sub):
             chk.violation("C06:get_index_in_fock_subspace(_array):d=%d,n=%d" % (len(v), sum(v)), "sub-space index wrong",
                           {"v": v, "got": [r["subindex"], r["subindex_arr"]], "expected": sub})
+    for r in vecs:
+        first = [r["index"], r["index_arr"], r["subindex"], r["subindex_arr"]]
+        if r["second_call"] != first or r["input_after"] != [r["v"], r["v"]]:
+            chk.violation("C06:index-functions:not-a-function-of-the-vector:dtype=%s" % r["dtype"],
+                          "calling the index functions twice on the same array gives different answers or modifies the array",
+                          {"v": r["v"], "dtype": r["dtype"], "first": first, "second": r["second_call"], "input_after": r["input_after"]})
+    for r in impl["batches"]:
+        neval += 1
+        want = [py_index(v) for v in r["vs"]]
+        if r["index"] != want or r["index_again"] != want or r["input_after"] != r["vs"] or r["subindex"] != [py_index(v[1:]) for v in r["vs"]]:
+            chk.violation("C06:get_index_in_fock_space_array:batch:dtype=%s" % r["dtype"],
+                          "vectorised index on a batch: wrong, not repeatable, or input modified", r)
+    for r in impl["dim_arrays"]:
+        neval += 1
+        d = r["d"]
+        wb = [mcomb(d + c - 1, d) if d + c - 1 >= 0 else 0 for c in r["cutoffs"]]
+        wf = [sum(mcomb(d, k) for k in range(c)) for c in r["cutoffs"]]
+        if r["bosonic"] != wb or r["bosonic_scalar"] != wb:
+            chk.violation("C06:fock.cutoff_fock_space_dim_array", "bosonic dimension formula disagrees with the enumeration size", r)
+        if r["fermionic"] != wf or r["fermionic_scalar"] != wf:
+            chk.violation("C06:fermionic.cutoff_fock_space_dim_array", "fermionic dimension formula disagrees with the enumeration size", r)
     for r in impl["fermionic"]:
         d, basis = r["d"], [tuple(b) for b in r["basis"]]
         neval += len(basis)
